@@ -109,8 +109,8 @@ PROPS = {
     },
     "C09": {
         "prop_files": ['Katib/Props/C09.lean'],
-        "streams": [('SIM', {'quick': 240, 'thorough': 8000})],
-        "rule": "seeded random schedules of the three real reconcilers on the fake client (1-2 experiments, optionally equally named in two namespaces; maxTrialCount 1-4/unset, parallel 1-3, maxFailed, goal, three resume policies, early stopping, retain, push collector), ops = reconciles with per-kind monotone lagging views (random lag, stalled informers, one kind's cache held for several reconciles - also exactly at the Experiment copy from before its verdict), write-fault masks, abort points, algorithm reply faults (short/long/error, rules RPC error), job outcomes, metric arrival (also after the verdict), early stop, deployment ready, external removal of a completed trial's run object; then fault-free settling to quiescence, a quiescence probe, optionally one or two budget raises each with a second settling, and optionally a teardown in which Trials are deleted and reconciled while the database call or the finalizer write fails; every op's write log and the whole store are compared with the Lean model; a case = one schedule; distinct = distinct op sequence",
+        "streams": [('SIM', {'quick': 240, 'thorough': 8000}), ('C08S', {'quick': 2000, 'thorough': 60000})],
+        "rule": "seeded random schedules of the three real reconcilers on the fake client (1-2 experiments, optionally equally named in two namespaces; maxTrialCount 1-4/unset, parallel 1-3, maxFailed, goal, three resume policies, early stopping, retain, push collector), ops = reconciles with per-kind monotone lagging views (random lag, stalled informers, one kind's cache held for several reconciles - also exactly at the Experiment copy from before its verdict), write-fault masks, abort points, algorithm reply faults (short/long/error, rules RPC error), job outcomes, metric arrival (also after the verdict), early stop, deployment ready, external removal of a completed trial's run object; then fault-free settling to quiescence, a quiescence probe, optionally one or two budget raises each with a second settling, and optionally a teardown in which Trials are deleted and reconciled while the database call or the finalizer write fails; every op's write log and the whole store are compared with the Lean model; a case = one schedule; distinct = distinct op sequence; stream C08S (sequences of real SyncAssignments calls, request steps of up to 11): the request numbers the service receives are requests minus suggestionCount and requests",
         "trusted": ["controller-runtime fake client stands in for the kube-apiserver (rv conflicts, status subresource, AlreadyExists)",
                     "fake algorithm / early-stopping / DB-manager services", "typed reads inside a reconcile come from a snapshot (informer cache), run objects are read live"],
         "modelled": ["ReconcileExperiment.Reconcile / ReconcileSuggestion.Reconcile / ReconcileTrial.Reconcile and helpers as Katib.Ctl.expPlan / sugPlan / trialPlan",
@@ -179,10 +179,10 @@ PROPS = {
     },
     "C17": {
         "prop_files": ["Katib/Props/C17.lean"],
-        "n": {"quick": 4000, "thorough": 200000},
+        "streams": [("C17", {"quick": 4000, "thorough": 200000}), ("SIM", {"quick": 160, "thorough": 3000})],
         "rule": "suggestions (names, namespaces, labels incl. the reserved katib label keys, three resume policies, early stopping on/off/empty name) x generated katib-config "
                 "suggestion entries (container name, 0-2 extra ports incl. the reserved name/number, custom serviceAccountName, volume mounts incl. suggestion-volume, mount path) "
-                "through the real composer.General on a fake client; Deployment/Service/PVC/RBAC projected on the fields that tie them together; owner references checked Go-side",
+                "through the real composer.General on a fake client; Deployment/Service/PVC/RBAC projected on the fields that tie them together; owner references checked Go-side; stream SIM (the controller schedules of C01-C16, with write faults and aborts between the ServiceAccount / Role / RoleBinding creations): at quiescence an early-stopping experiment whose algorithm Deployment exists has all three RBAC objects",
         "trusted": ["sigs.k8s.io/yaml round trip of the generated katib-config", "owner-reference check (SetControllerReference) evaluated Go-side"],
         "modelled": ["General.DesiredDeployment/DesiredService/DesiredVolume/DesiredRBAC, desiredContainers, util.GetSuggestion*Name, GetAlgorithmEndpoint, SuggestionLabels as Katib.Comp.*"],
         "level_text": "Lean theorems C17_selector, C17_ports, C17_endpoint, C17_listening, C17_reserved_port_rejected, C17_volume, C17_ns, C17_rbac_partial (default service account) and "
